@@ -8,12 +8,23 @@ from ..report import Ctx
 def include(ctx, world, modname, prefix, keep=None):
     sub = Ctx(modname.upper(), ctx.tier, "other")
     mod = importlib.import_module("sa.rules." + modname)
-    mod.check(sub, world)
+    from ..loader import AnalysisError
+    aborted = None
+    try:
+        mod.check(sub, world)
+    except AnalysisError as e:
+        # what the included rule set established before it had to give up still stands (a violation found there is a
+        # violation here); the including check then ends without a verdict of its own, as the included one did
+        aborted = e
     n = 0
     for o in sub.obs:
         if keep is not None and not keep(o):
             continue
+        if aborted is not None and o.ok:
+            continue
         n += 1
         ctx.ob("%s/%s" % (prefix, o.rule), o.instance, o.ok, o.detail, o.site, o.witness)
     ctx.count("included_from_" + modname, n)
+    if aborted is not None:
+        raise aborted
     return sub
